@@ -122,6 +122,17 @@ structure World where
   probes : List (Nat × Option (Nat × Level × String)) := []
   /-- ghost: every position handed out by `_nextTaskLevel`, as (action handle, position), in order -/
   slots : List (Nat × Nat) := []
+  /-- ghost: the position handed out by the most recent `_nextTaskLevel`, until a message is
+  delivered (staged and offered or buffered) for it -/
+  lastSlot : Option (Nat × Nat) := none
+  /-- ghost: `offered`, each call with the slot the offered message was built for -/
+  offeredAt : List (Nat × Msg × Option (Nat × Nat)) := []
+  /-- ghost: `buffer`, each message with the slot it was built for -/
+  bufferAt : List (Msg × Option (Nat × Nat)) := []
+  /-- ghost: the buffered entries the running `Destinations.add` has still to re-deliver -/
+  pendingAt : List (Msg × Option (Nat × Nat)) := []
+  /-- ghost: some `Destinations.add` left a destination registered twice -/
+  dupAdd : Bool := false
 deriving Repr
 
 def lookupNat {α} : List (Nat × α) → Nat → Option α
@@ -139,7 +150,8 @@ def DESTINATION_FAILURE : String := "eliot:destination_failure"
 /-- One destination call: record it, consult the oracle. Returns the error if it raised. -/
 def World.callDest (env : Env) (w : World) (d : Nat) (m : Msg) : World × Option Exc :=
   let k := (lookupNat w.destCalls d).getD 0
-  let w1 := { w with destCalls := setNat w.destCalls d (k + 1), offered := w.offered ++ [(d, m)] }
+  let w1 := { w with destCalls := setNat w.destCalls d (k + 1), offered := w.offered ++ [(d, m)],
+                     offeredAt := w.offeredAt ++ [(d, m, w.lastSlot)] }
   match env.destFails d k with
   | none => ({ w1 with accepted := w1.accepted ++ [(d, m)] }, none)
   | some e => (w1, some e)
@@ -154,6 +166,14 @@ def World.fanOut (env : Env) (w : World) (m : Msg) : List Nat → World × List 
 
 def trim1000 (l : List Msg) : List Msg := l.drop (l.length - 1000)
 
+/-- `trim1000` on the ghost copy of the buffer -/
+def trimAt (l : List (Msg × Option (Nat × Nat))) : List (Msg × Option (Nat × Nat)) := l.drop (l.length - 1000)
+
+/-- ghost: the list has a repeated element -/
+def hasDup : List Nat → Bool
+  | [] => false
+  | x :: xs => xs.contains x || hasDup xs
+
 /-- The body of `send` up to and including the loop; `BufferingDestination` is the destination
 while nothing was ever added.  Returns the (unreported) errors of this message. -/
 def World.deliver (env : Env) (w : World) (m : Msg) : World × Msg × List Exc :=
@@ -162,16 +182,18 @@ def World.deliver (env : Env) (w : World) (m : Msg) : World × Msg × List Exc :
   if w0.anyAdded then
     let r := World.fanOut env w0 m' w0.dests
     let isReport := m'.get? "message_type" == some (.str DESTINATION_FAILURE)
-    (r.1, m', if isReport then [] else r.2)
+    ({ r.1 with lastSlot := none }, m', if isReport then [] else r.2)
   else
-    ({ w0 with buffer := trim1000 (w0.buffer ++ [m']) }, m', [])
+    ({ w0 with buffer := trim1000 (w0.buffer ++ [m']), bufferAt := trimAt (w0.bufferAt ++ [(m', w0.lastSlot)]),
+               lastSlot := none }, m', [])
 
 /-! ## position counter -/
 
 /-- `Action._nextTaskLevel` of action `h`. -/
 def World.nextLevel (w : World) (h : Nat) : World × Level :=
   match w.acts[h]? with
-  | some a => ({ w with acts := w.acts.set h { a with last := a.last + 1 }, slots := w.slots ++ [(h, a.last + 1)] },
+  | some a => ({ w with acts := w.acts.set h { a with last := a.last + 1 }, slots := w.slots ++ [(h, a.last + 1)],
+                        lastSlot := some (h, a.last + 1) },
       a.level ++ [a.last + 1])
   | none => (w, [])
 
@@ -365,12 +387,18 @@ def World.logTo (env : Env) (w : World) (h : Nat) (ms : MSpec) : World :=
   let b := w.buildLog h ms.mtype ms.fields
   b.1.loggerWrite env b.2 ms.sers
 
-/-- `Destinations.add(*ds)` -/
+/-- ghost step of the re-delivery loop: the next buffered entry's slot becomes the pending one -/
+def World.popPending (w : World) : World :=
+  { w with lastSlot := w.pendingAt.head?.bind (·.2), pendingAt := w.pendingAt.tail }
+
+/-- `Destinations.add(*ds)`; the first call re-delivers the buffered messages (ghost: each with the
+slot it was built for) -/
 def World.addDests (env : Env) (w : World) (ds : List Nat) : World :=
-  if w.anyAdded then { w with dests := w.dests ++ ds }
+  if w.anyAdded then { w with dests := w.dests ++ ds, dupAdd := w.dupAdd || hasDup (w.dests ++ ds) }
   else
-    let w1 := { w with anyAdded := true, dests := ds, buffer := [] }
-    w.buffer.foldl (fun acc m => acc.send env m) w1
+    let w1 := { w with anyAdded := true, dests := ds, buffer := [], pendingAt := w.bufferAt, bufferAt := [],
+                       dupAdd := w.dupAdd || hasDup ds }
+    w.buffer.foldl (fun acc m => acc.popPending.send env m) w1
 
 /-! ## Programs -/
 inductive Outcome where
